@@ -413,9 +413,13 @@ def checkExpiredAllocs (allocs : List (Nat × Allocation)) (client : Nat) (epoch
      | none => 17
      | some a => if epoch ≥ a.expiration then 0 else 18) :: checkExpiredAllocs allocs client epoch rest
 
-/-- `expiration::find_expired` on allocations (table order) -/
+/-- `expiration::find_expired` on allocations: the keys of the client's table whose record has
+    expired (the HAMT has one entry per key, so iterating entries = looking each key up) -/
 def findExpiredAllocs (allocs : List (Nat × Allocation)) (client : Nat) (epoch : Int) : List Nat :=
-  (allocs.filter (fun p => p.2.client = client ∧ epoch ≥ p.2.expiration)).map (fun p => p.1)
+  (allocs.map (fun p => p.1)).filter (fun id =>
+    match getAlloc allocs client id with
+    | some a => decide (epoch ≥ a.expiration)
+    | none => false)
 
 /-- ids whose code is 0 (`BatchReturn::successes`) -/
 def successes : List Nat → List Nat → List Nat
@@ -460,8 +464,10 @@ def checkExpiredClaims (claims : List (Nat × Claim)) (provider : Nat) (epoch : 
       :: checkExpiredClaims claims provider epoch rest
 
 def findExpiredClaims (claims : List (Nat × Claim)) (provider : Nat) (epoch : Int) : List Nat :=
-  (claims.filter (fun p => p.2.provider = provider ∧ epoch ≥ p.2.termStart + p.2.termMax)).map
-    (fun p => p.1)
+  (claims.map (fun p => p.1)).filter (fun id =>
+    match getClaim claims provider id with
+    | some c => decide (epoch ≥ c.termStart + c.termMax)
+    | none => false)
 
 def removeClaims (claims : List (Nat × Claim)) (provider : Nat) :
     List Nat → Except Err (List (Nat × Claim))
